@@ -2,23 +2,23 @@
 import json
 import os
 
-HOOK_COMMITS = ["b71293f", "23e6bda", "0c7fa88"]
+HOOK_COMMITS = ["b71293f", "23e6bda", "0c7fa88", "26fcdfb", "23e5169"]
 
 CHECKS = {
     "C01": dict(
         technique="TLA+ contract (FlowContract!C01) checked by TLC on traces recorded from the real flow_graph; L2 models PFlood (priority flood, all queue tie-breaks) and BasinGraph (spanning-tree resolver, all tie orders and pass choices) model-checked against the same contract",
-        text="Every recorded update_routes of every resolver variant is validated by TLC against the L1 contract: terminals are self receivers, every receiver edge of a node connected to a base level strictly descends in returned elevation (exact on ulp-ranks), and following receivers reaches a base level. Seeded random worlds (profile, rook/queen/bishop rasters with looped borders, meshes; ties, plateaus, zero/negative/subnormal/huge levels, masks, interior base levels) plus small exhaustive scopes.",
+        text="Every recorded update_routes of every resolver variant is validated by TLC against the L1 contract: terminals are self receivers, every receiver edge of a node connected to a base level strictly descends in returned elevation (exact on ulp-ranks), and following receivers reaches a base level. Seeded random worlds (profile, rook/queen/bishop rasters with looped borders, meshes; ties, plateaus, zero/negative/subnormal/huge levels, masks, interior base levels) plus small exhaustive scopes; 'hub' worlds (140..460 nodes with the degree bound of the Boruvka work lists lowered through the guarded knob; 1100..2200 nodes with the library's bound in the thorough tier) keep several basins in Boruvka's large-degree list; a quarter of the graphs receive their operator sequence through the public move assignment.",
         note="Trusted: the harness logs projections only (ulp-ranks are a monotone re-encoding of the bit patterns); TLC evaluates the contract; neighbourhoods come from the Grid specification, itself bound to the real grids by C07. Bounded by world size (<= 8x8) and the sampled worlds.",
         ref="5-C01"),
     "C02": dict(
-        technique="TLA+ contract (FlowContract!C02, spill level as a least fixpoint evaluated by TLC) on recorded traces; PFlood and BasinGraph L2 models refine it exhaustively on small grids",
-        text="For every recorded update of every resolver variant TLC recomputes the spill level (min over neighbour paths of the max input elevation) as a least fixpoint on ulp-ranks and checks in <= out, bit-identity at base levels / masked nodes, and Spill <= out <= Spill + N ulps exactly (gap-compressed ranks keep small ulp distances exact).",
-        note="Trusted: rank encoding (order and ulp gaps < 1000 exact), Grid specification for neighbourhoods. Bounded by world size and samples.",
+        technique="TLA+ contract (FlowContract!C02, spill level as a least fixpoint; on recorded traces TLC verifies a logged certificate of that fixpoint in one pass - fixpoint of the same step operator + witnessed by a descending parent chain - and computes it itself when the certificate fails or the world is small); PFlood and BasinGraph L2 models refine it exhaustively on small grids",
+        text="For every recorded update of every resolver variant TLC recomputes the spill level (min over neighbour paths of the max input elevation) as a least fixpoint on ulp-ranks and checks in <= out, bit-identity at base levels / masked nodes, and Spill <= out <= Spill + N ulps exactly (gap-compressed ranks keep small ulp distances exact). Hub worlds as in C01 (Boruvka's large-degree list with several live hubs).",
+        note="Trusted: rank encoding (order and ulp gaps < 1000 exact), Grid specification for neighbourhoods. The spill certificate is untrusted input: it is used only after TLC has verified both inequalities, and compared with the computed fixpoint on worlds of <= 30 nodes. Bounded by world size and samples.",
         ref="5-C02"),
     "C03": dict(
         technique="TLA+ balance equation (FlowContract!AccBalance/AccConserves/AccIndicator) evaluated by TLC in exact integer arithmetic on recorded accumulate calls",
-        text="Every recorded accumulate call (4 overloads) on every kind of routed graph is validated by TLC: overloads bit-identical (ranks); where all quantities are exact integers (single direction: unit weights; multiple direction: weights that are multiples of 2^-8, results scaled by 2^K) the local balance acc = area*src + sum(donor acc * weight), conservation over terminal nodes and the local lower bound hold exactly; indicator sources reconstruct the whole linear operator on meshes (acc is bit-exactly 0 or area[u], non-zero exactly downstream of u).",
-        note="Trusted: integer/dyadic encodings (exact by construction of the generated inputs); cases outside the exact domain are only checked for overload agreement and memo consistency. Rounding-size deviations on non-dyadic weights are invisible.",
+        text="Every recorded accumulate call (4 overloads) on every kind of routed graph is validated by TLC: overloads bit-identical (ranks); where all quantities are exact integers (single direction: unit weights; multiple direction: weights that are multiples of 2^-8, results scaled by 2^K) the local balance acc = area*src + sum(donor acc * weight), conservation over terminal nodes and the local lower bound hold exactly; indicator sources reconstruct the whole linear operator on meshes (acc is bit-exactly 0 or area[u], non-zero exactly downstream of u). On EVERY graph whose values are in range (integer areas, |acc| < 4096) the same balance is checked in fixed point (acc 2^-5, weights 2^-9) with a tolerance equal to the quantisation alone.",
+        note="Trusted: integer/dyadic encodings (exact by construction of the generated inputs); outside the exact domain the balance is an enclosure (relative 2^-9 per donor term): a lost or doubled donor contribution is visible, rounding-size deviations on non-dyadic weights are not.",
         ref="5-C03"),
     "C04": dict(
         technique="TLA+ steepest-descent contract (FlowContract!C04) with exact integer slope comparison, TLC on recorded traces; Router L2 model refines it on every field of a small anisotropic raster",
@@ -28,12 +28,12 @@ CHECKS = {
     "C05": dict(
         technique="TLA+ partition contract (FlowContract!C05*) on recorded traces: receiver bag equality against Grid!NeighSeq, weights in Q(20) with interval slack",
         text="Every recorded multi-router state (exponent changed between successive updates on the same object; raw, pflood-filled and mst-tilted terrain): receiver entries with distances equal, as a bag, the strictly lower unmasked neighbour entries of the Grid specification; weights finite, non-negative, summing to one within nrec units of 2^-20; proportionality to slope^p checked by integer cross-multiplication for p in {0, 1, 2} on exact inputs.",
-        note="Proportionality is an enclosure check (Q(16) with slack), asserted only on integer inputs at ordinary scale and for p in {0,1,2}; finiteness/sum/receiver set asserted everywhere (p = 1.5, 30; subnormal and 2^1000 scale).",
+        note="Proportionality is an enclosure check (Q(16) with slack), asserted only on integer inputs at ordinary scale and for p in {0,1,2}; finiteness/sum/receiver set asserted everywhere (p = 1.5, 30, 64, 150, 2500; subnormal and 2^1000 scale; grid spacings scaled by 2^-10 .. 2^12; plateau-and-cliff relief whose gentle receivers get weight exactly zero).",
         ref="5-C05"),
     "C06": dict(
         technique="TLA+ discrete invariants (FlowContract!C06Donors/C06Dfs/C06Bfs) evaluated by TLC on every recorded graph state; Orders L2 model (the three traversal algorithms, step by step) checked against them on every forest / DAG with 4-5 nodes",
         text="Every recorded state of every operator sequence (single/multi, pflood, mst basic/carve, repeated updates, masks, looped borders, meshes): donor table is the inverse of the receiver table as bags over distinct nodes, counts within table widths and indices in range, dfs order is a permutation with every receiver before its donors, bfs order is a permutation cut into non-empty strictly increasing levels with every receiver in a strictly earlier level.",
-        note="Pure discrete check, exact. Bounded by the sampled worlds (<= 8x8).",
+        note="Pure discrete check, exact. Bounded by the sampled worlds (<= 8x8); includes multiple-direction graphs under slope exponents 64 and 150 on plateau-and-cliff relief (receivers of weight zero stay listed on both sides).",
         ref="5-C06"),
     "C07": dict(
         technique="TLA+ Grid specification (NeighSeq from geometry: one step under the connectivity, wrap-around only on looped axes) vs every accessor, validated by TLC on recorded query histories (GridTrace); spec-level symmetry and degree table checked by TLC",
@@ -47,8 +47,8 @@ CHECKS = {
         ref="5-C09"),
     "C10": dict(
         technique="TLA+ ParDispatch L2 model checked over all interleavings + FlowGraph memo (thread counts are not part of the specification's inputs) validated by TLC on recorded parallel/sequential histories + kernel call logs + ThreadSanitizer observer",
-        text="MC: ParDispatch (per-node fill/read/write of the neighbour scratch over Blocks-partitioned ranges, level loop with barrier) keeps result = sequential result in every interleaving; negative controls (shared scratch, no barrier) are rejected. Binding: the same inputs go through a sequential graph and graphs using 2..16 threads (cached and cache-less rasters, profiles, meshes, up to 15x15; repeated updates pausing/resuming/resizing the pool); TLC rejects any difference in receivers, distance/weight bit patterns, traversal orders, accumulation, basins. Kernels log every call with a global sequence counter: exactly once per node, every receiver's call ended before the node's began, output equal to the value TLC computes from the recorded graph and to the sequential run, unsupported parallel order refused. The tsan flavour of the same driver observes the happens-before relation on cache-less rasters and meshes.",
-        note="Schedules of the real threads are whatever the OS produces (free-running) in this check; steered schedules of the pool are in C11. ThreadSanitizer is the trusted observer for data races. Grids <= 15x15, thread counts 2..16.",
+        text="MC: ParDispatch (per-node fill/read/write of the neighbour scratch over Blocks-partitioned ranges, level loop with barrier) keeps result = sequential result in every interleaving; negative controls (shared scratch, no barrier) are rejected. Binding: the same inputs go through a sequential graph and graphs using 2..16 threads (cached and cache-less rasters, profiles, meshes, up to 15x15; repeated updates pausing/resuming/resizing the pool); TLC rejects any difference in receivers, distance/weight bit patterns, traversal orders, accumulation, basins. Kernels log every call with a global sequence counter: exactly once per node, every receiver's call ended before the node's began, output equal to the value TLC computes from the recorded graph and to the sequential run, unsupported parallel order refused. A further stage runs the same kind of cases under the harness' controlled scheduler (the pool that starts workers inside a flow case is adopted; every pool point, every grid.neighbors() call of a worker - between the fill and the read of the neighbour storage - and every kernel call is a schedule point; PCT priorities or uniform random choices from the case's seed). The tsan flavour of the same driver observes the happens-before relation on cache-less rasters and meshes.",
+        note="Three kinds of schedules: free-running (OS), controlled (40 quick / 1200 thorough executions; with the thread-local neighbour storage made shared again on a scratch copy the controlled stage alone rejects - bin/vselftest), ThreadSanitizer as the trusted observer for data races. Grids <= 15x15, thread counts 2..16.",
         ref="5-C10"),
     "C11": dict(
         technique="TLA+ ThreadPool L2 model (one action per atomic access / mutex / condvar operation / spin iteration, happens-before version ghosts) model-checked exhaustively incl. liveness; Blocks specification enumerated and replayed; real pool run under a controlled scheduler through guarded hooks and every recorded schedule validated by TLC against the model (PoolTrace); ThreadSanitizer observer",
@@ -57,28 +57,28 @@ CHECKS = {
         ref="5-C11"),
     "C12": dict(
         technique="TLA+ erosion contract (FlowContract!Spl*) on ulp-ranks, validated by TLC on recorded spl_eroder steps over every kind of routed graph, with eroder objects reused while the graph changes; SPLSweep L2 model (bottom-up sweep with the solver abstracted to any outcome) refines the contract on every small DAG",
-        text="Every recorded erode() call (single/multi graphs, resolved or not, masks, moved base levels, K scalar/array incl. 0, m in {0,0.4,0.5,1}, n in {0.5,0.8,1,1.5,2,3}, dt over 9 decades, elevation = returned or input field; one eroder object serving several steps while nodes become terminal / masked / lakes): constructor refuses exactly n != 1 on a multiple-direction graph; erosion finite; bit-zero at terminals, masked nodes and lakes (h <= lowest post-erosion receiver elevation, the comparison the property states, on ranks); new elevation not above the old one beyond two ulps; an eroded node is not lowered below its lowest receiver (up to two ulps of its own magnitude, the rounding of the returned erosion).",
+        text="Every recorded erode() call (single/multi graphs, resolved or not, masks, moved base levels, K scalar/array incl. 0, m in {0,0.4,0.5,1}, n in {0.5,0.8,1,1.5,2,3}, dt over 9 decades, elevation = returned or input field; one eroder object serving several steps while nodes become terminal / masked / lakes): constructor refuses exactly n != 1 on a multiple-direction graph, and so does every request of a history of set_slope_exp calls on one eroder (repeats of a refused value included); erosion finite; bit-zero at terminals, masked nodes and lakes (h <= lowest post-erosion receiver elevation, the comparison the property states, on ranks); new elevation not above the old one beyond 2 + 2 nrec ulps (one product and two additions per receiver in the linear update); an eroded node is not lowered below its lowest receiver (up to two ulps of its own magnitude, the rounding of the returned erosion).",
         note="Products K dt A^m are kept finite (< 1e150: beyond that the Newton loop of the library does not terminate, recorded in DESIGN.md as outside the documented domain).",
         ref="5-C12"),
     "C13": dict(
         technique="exact cases: the post-erosion surface is chosen first (integers), TLC verifies in integer arithmetic that it solves the implicit equation for the derived input, then that the erosion returned by the real eroder encloses it (Q(20), slack from the Newton tolerance accumulated along the receiver path)",
-        text="Chains (profiles, spacing 1 or 4) and trees (2x2..3x4 rook rasters): h'_i integers without ties, receivers from routing on h', input h_i = h'_i + f_i (h'_i - h'_r)^n with f_i = K_i dt A_i^m / d^n an integer, n in {1/2, 1, 2, 3}, m in {0,1,2}, per-node K and drainage area, tolerances 1e-3 and 1e-6. For every node not at the limiter's value TLC checks |e_i - (h_i - h'_i)| <= (depth+1)(tol + 4 units of 2^-20).",
+        text="Chains (profiles, spacing 1 or 4) and trees (2x2..3x4 rook rasters): h'_i integers without ties, receivers from routing on h', input h_i = h'_i + f_i (h'_i - h'_r)^n with f_i = K_i dt A_i^m / d^n an integer, n in {1/2, 1, 2, 3}, m in {0,1,2}, per-node K and drainage area, tolerances 1e-1, 1e-2, 1e-3 and 1e-6. For every node not at the limiter's value TLC checks |e_i - (h_i - h'_i)| <= (depth+1)(tol + 4 units of 2^-20) and, for n = 1 and n = 2, the residual of the implicit equation itself given the receiver's returned elevation, eps_i + F((d+u)^n - d^n), against tol plus the quantisation of eps.",
         note="Bounded by design (DESIGN.md section 7): structural errors (exponent classification, exit tests, distance/area/weight placement, old vs new receiver elevation) are detected; accuracy for arbitrary real exponents is not claimed. Nodes at the limiter's value are excluded, as in the property.",
         ref="5-C13"),
     "C14": dict(
         technique="TLA+ ADI specification: the two tridiagonal systems in residual form with integer coefficients; both half steps of the real eroder (intermediate field through a guarded hook) validated by TLC in Q(S) interval arithmetic; identities (borders, scalar vs array, linearity, status independence)",
-        text="Shapes 3..6 x 3..6 (8 thorough), spacings {1,2,3}^2, dt = p/q (p up to 1000: stiff), scalar or per-node integer diffusivity: for every interior node TLC checks the first (implicit along columns) and second (implicit along rows) half-step equations multiplied by D = 8 q dy^2 dx^2 - exact integer coefficients, residual within the quantisation of the logged Q(S) values; the systems are diagonally dominant M-matrices so the residual bounds the solution error. Borders: bit-zero erosion and untouched half step. Scalar K vs uniform array within 2 units of 2^-20; E(ax+by) = aE(x)+bE(y) within |a|+|b|+2 units of 2^-16; bit-identical under other border statuses.",
+        text="Shapes 3..6 x 3..6 (8 thorough), spacings {1,2,3}^2, dt = p/q (p up to 1000: stiff), scalar or per-node integer diffusivity, optionally expressed in other units (K x 2^-ksc, dt x 2^ksc, exact: SI-like magnitudes 1e-9 .. 1e-14 with huge steps, and the opposite): for every interior node TLC checks the first (implicit along columns) and second (implicit along rows) half-step equations multiplied by D = 8 q dy^2 dx^2 - exact integer coefficients, residual within the quantisation of the logged Q(S) values; the systems are diagonally dominant M-matrices so the residual bounds the solution error. Borders: bit-zero erosion and untouched half step. Scalar K vs uniform array within 2 units of 2^-20; E(ax+by) = aE(x)+bE(y) within |a|+|b|+2 units of 2^-16; bit-identical under other border statuses.",
         note="Quantisation S chosen per case so that products stay below 2^30 (coarser for stiff steps). Non-integer diffusivities are covered only through the identities.",
         ref="5-C14"),
     "C15": dict(
-        technique="TLA+ basin-graph contract (FlowContract!Bg*): edges = lowest passes recomputed by TLC from the recorded labels and elevation ranks, tree = spanning forest satisfying the cycle property, orientation by in-degree; validated on recorded basin_graph objects (both algorithms, repeated updates)",
-        text="Stand-alone basin_graph objects (Kruskal and Boruvka) on single-router graphs over random worlds with heavy ties, masks, interior base levels, looped borders, meshes, updated three times each, plus constructed 3 x N rasters whose channel basin has degree > 16 (Boruvka's large-degree path): exactly one edge per adjacent basin pair with an inner basin, joining neighbouring nodes of the two basins at the minimum over all such pairs of the higher elevation; virtual edges from one root to every other outer basin; tree = spanning forest (same components, nb - #components edges); every non-tree edge's ends are joined by tree edges not heavier than it (cycle property, comparisons on ranks only); Kruskal and Boruvka weight multisets equal; after orientation every basin has at most one incoming tree edge and each component one root, an outer basin where there is one.",
-        note="Worlds <= 7x7 plus 3 x 40 constructed cases. Comparisons only (exact on ranks).",
+        technique="L2 models checked by TLC - Boruvka (compute_tree_boruvka transcribed: work lists, collapse, bucket clean-up, in-place compaction of the large-degree list; all weight assignments on graph families that keep two hubs large; three seeded variants and the degree assumption as negative controls), UnionFind (parent/rank forest refines a partition; every transition of the state graph replayed through the real class, UFTrace), BasinGraph (Kruskal, re-routing, tilting) - and the TLA+ basin-graph contract (FlowContract!Bg*): edges = lowest passes recomputed by TLC from the recorded labels and elevation ranks, tree = spanning forest satisfying the cycle property, orientation by in-degree; validated on recorded basin_graph objects (both algorithms, repeated updates)",
+        text="Stand-alone basin_graph objects (Kruskal and Boruvka) on single-router graphs over random worlds with heavy ties, masks, interior base levels, looped borders, meshes, updated three times each, plus constructed 3 x N rasters whose channel basin has degree > 16, bowl terrains with tied parallel passes, and hub worlds that keep SEVERAL basins in Boruvka's large-degree list (degree bound lowered to 6 / 8 through the guarded knob, 140..460 nodes; library bound 16 on 1100..2200 nodes in the thorough tier): exactly one edge per adjacent basin pair with an inner basin, joining neighbouring nodes of the two basins at the minimum over all such pairs of the higher elevation; virtual edges from one root to every other outer basin; tree = spanning forest (same components, nb - #components edges); every non-tree edge's ends are joined by tree edges not heavier than it (cycle property, comparisons on ranks only); Kruskal and Boruvka weight multisets equal; after orientation every basin has at most one incoming tree edge and each component one root, an outer basin where there is one.",
+        note="Worlds <= 7x7 plus constructed cases. Comparisons only (exact on ranks). The lowered degree bound changes a constant of the algorithm, not its code path; 6 (rook) and 8 (queen) keep the algorithm's assumption (some live node has at most that many neighbours) true on these worlds.",
         ref="5-C15"),
     "C16": dict(
         technique="TLA+ FlowGraph!SnapGraph/SnapElev/SnapMutate actions: snapshot state looked up in the memo of the prefix graph; TLC validates recorded histories",
         text="For sequences with graph/elevation snapshots at several positions (single and multiple direction states), the harness also runs the prefix graphs on the same inputs; TLC checks that each snapshot's receivers, counts, distance and weight bit patterns and donors equal the prefix graph's, that its own dfs/bfs/levels/donor tables satisfy C06, that accumulate and basins on the snapshot equal those on the prefix graph, that elevation snapshots equal the elevation at that point, that a later update with another input replaces (and only replaces) the snapshot, and that update_routes/set_mask/set_base_levels on a snapshot are refused.",
-        note="Kernel application on snapshots is covered through the traversal-order validity (C06 conjuncts on the snapshot's own tables), not by running kernels. Sampled sequences (7 shapes of snapshot placement) and worlds.",
+        note="Kernels are also applied on snapshot graphs and compared with the value TLC computes from the snapshot's recorded tables. Sampled sequences (7 shapes of snapshot placement) and worlds.",
         ref="5-C16"),
     "C17": dict(
         technique="TLA+ Grid!StatusArray / GridAccepted / FilteredSeq vs the real constructors and iterators, complete enumeration validated by TLC (GridTrace); default base levels through FlowGraph!NewGraph",
